@@ -1,10 +1,170 @@
 import Driver.Crdt
-/- Extension of the `crdt` driver engine: commands `crdt.patch.*` on the same per-case state. -/
+import AmVerif.Model.PatchView
+import AmVerif.Model.PatchDiff
+/- Extension of the `crdt` driver engine: commands `crdt.patch.*` on the same per-case state.
+
+   `crdt.patch.apply r Cxx H1 H2 obj <patches>` is the correspondence line of C08/C09: the model
+   prints the view of `obj` at H1 (`hview` of `Doc.at H1`), the result of its own `applyPatches` on
+   the REAL patches carried by the line, the view at H2, and whether the two agree. -/
 namespace Driver.CrdtPatch
 open AmVerif AmVerif.Crdt AmVerif.Wire Driver.Crdt
 
+def parsePProp (s : String) : Option PProp :=
+  let rest := (s.drop 1).toString
+  match s.toList.head? with
+  | some 'm' => (unhx rest).map .key
+  | some 'i' => rest.toNat?.map .idx
+  | _ => none
+
+def parsePVal (s : String) : Option PVal :=
+  match s with
+  | "oM" => some (.obj .map) | "oL" => some (.obj .list) | "oT" => some (.obj .text) | "oB" => some (.obj .table)
+  | _ => (parseScalar s).map .scalar
+
+def parseInsertVal (s : String) : Option (PVal × Bool) :=
+  match s.splitOn "," with
+  | [v, _id, c] => (parsePVal v).map (fun pv => (pv, c == "1"))
+  | _ => none
+
+def parseAction (e : Enc) (s : String) : Option PatchAction :=
+  match s.splitOn ":" with
+  | ["pm", k, v, _id, c] => do
+    let kb ← unhx k; let pv ← parsePVal v
+    pure (.putMap kb pv (c == "1"))
+  | ["ps", i, v, _id, c] => do
+    let n ← i.toNat?; let pv ← parsePVal v
+    pure (.putSeq n pv (c == "1"))
+  | ["in", i, vs] => do
+    let n ← i.toNat?; let l ← (vs.splitOn "|").mapM parseInsertVal
+    pure (.insert n l)
+  | ["sp", i, t, _marks] => do
+    let n ← i.toNat?; let b ← unhx t
+    pure (.spliceText n (unitsOf e b))
+  | ["inc", p, n] => do
+    let pp ← parsePProp p; let k ← parseInt n
+    pure (.increment pp k)
+  | ["cf", p] => (parsePProp p).map .conflict
+  | ["dm", k] => (unhx k).map .deleteMap
+  | ["ds", i, n] => do
+    let a ← i.toNat?; let b ← n.toNat?
+    pure (.deleteSeq a b)
+  | "mk" :: _ => some .mark
+  | _ => none
+
+def parsePathElem (s : String) : Option (ObjId × PProp) :=
+  match s.splitOn "^" with
+  | [o, p] => do
+    let ob ← parseObj o; let pp ← parsePProp p
+    pure (ob, pp)
+  | _ => none
+
+/-- `<obj>/<path>/<action>`; the action may itself contain no `/` -/
+def parsePatch (e : Enc) (s : String) : Option Patch :=
+  match s.splitOn "/" with
+  | [o, path, act] => do
+    let ob ← parseObj o
+    let pth ← if path == "-" then some [] else (path.splitOn ",").mapM parsePathElem
+    let a ← parseAction e act
+    pure ⟨ob, pth, a⟩
+  | _ => none
+
+def parsePatches (e : Enc) (s : String) : Option (List Patch) :=
+  if s == "-" then some [] else (s.splitOn ";").mapM (parsePatch e)
+
+def showOut (e : Enc) : HOut HView → String
+  | .ok v => showHView e 1000 v
+  | .err er => "err " ++ er.show
+  | .panic .todo => "panic todo"
+  | .panic _ => "panic other"
+
+def showPVal : PVal → String
+  | .scalar s => showScalar s
+  | .obj .map => "oM" | .obj .list => "oL" | .obj .text => "oT" | .obj .table => "oB"
+
+def showKey (k : Bytes) : String := if k.isEmpty then "-" else hexOfBytes k
+
+/-- an own-level map patch in the harness's canonical text: obj, empty path, action -/
+def showOwnPatch (obj : String) (p : PatchAction × OpId) : String :=
+  let b (x : Bool) : String := if x then "1" else "0"
+  obj ++ "/-/" ++
+  (match p.1 with
+   | .putMap k v c => s!"pm:{showKey k}:{showPVal v}:{showId p.2}:{b c}"
+   | .increment (.key k) n => s!"inc:m{showKey k}:{n}"
+   | .conflict (.key k) => s!"cf:m{showKey k}"
+   | .deleteMap k => s!"dm:{showKey k}"
+   | _ => "?")
+
+def setActor (st : State) (r : String) (a : Bytes) : State :=
+  { st with actors := (r, a) :: st.actors.filter (fun p => p.1 != r) }
+
+/-- merge-like ingestion: everything `q` has applied is offered to `p` -/
+def ingest (st : State) (p q : String) : State × List String :=
+  let (d', _) := applyBatch (getReplica st p) (getReplica st q).applied
+  (setReplica st p d', [s!"ok heads={showHashes d'.heads}"])
+
 def exec (st : State) (toks : List String) : State × List String :=
   match toks with
+  | ["crdt.patch.apply", r, _pid, h1, h2, obj, ps] =>
+    match unhxList h1, unhxList h2, parseObj obj, parsePatches st.enc ps with
+    | some hs1, some hs2, some o, some patches =>
+      let d := getReplica st r
+      match objType d.ops o with
+      | none => (st, ["err objid"])
+      | some ty =>
+        let ops1 := (d.at hs1).ops
+        let ops2 := (d.at hs2).ops
+        let a := hviewOf st.enc ops1 o ty
+        let b := hviewOf st.enc ops2 o ty
+        let applied := showOut st.enc (applyPatches st.enc a (rebasePatches o patches))
+        let to := showHView st.enc 1000 b
+        (st, [s!"from {showHView st.enc 1000 a}", s!"applied {applied}", s!"to {to}",
+              s!"verdict {if applied == to then "same" else "differs"}"])
+    | _, _, _, _ => (st, ["bad-input"])
+  -- the own level of a map object, non-recursive: the Lean transcription of `MapDiff` predicts the patches
+  | ["crdt.patch.diff", r, h1, h2, obj, "0"] =>
+    match unhxList h1, unhxList h2, parseObj obj with
+    | some hs1, some hs2, some o =>
+      let d := getReplica st r
+      match objType d.ops o with
+      | some .map =>
+        let ps := diffMapObj (d.at hs1).ops (d.at hs2).ops d.ops o
+        (st, [s!"patches {if ps.isEmpty then "-" else joinWith ";" (ps.map (showOwnPatch obj))}"])
+      | _ => (st, ["skip"])
+    | _, _, _ => (st, ["bad-input"])
+  | "crdt.patch.diff" :: _ => (st, ["skip"])
+  | "crdt.patch.incr" :: _ => (st, ["skip"])
+  | "crdt.patch.loadlog" :: _ => (st, ["skip"])
+  | "crdt.patch.mark" :: _ => (st, ["skip"])
+  | "crdt.patch.put" :: _ => (st, ["skip"])
+  | ["crdt.patch.track", r, p, actor] =>
+    match unhx actor with
+    | some a => (setReplica (setActor st p a) p (getReplica st r), ["ok"])
+    | none => (st, ["bad-input"])
+  | ["crdt.patch.merge", p, q] => ingest st p q
+  -- `save()` keeps the orphans (`retain_orphans` defaults to true): the queued changes travel too
+  | ["crdt.patch.loadinc", p, q, after] =>
+    let dq := getReplica st q
+    let offered := if after == "-" then dq.applied ++ dq.queue else dq.applied
+    let (d', _) := applyBatch (getReplica st p) offered
+    (setReplica st p d', [s!"ok heads={showHashes d'.heads}"])
+  -- the protocol runs both ways against a copy of `q`: what `p` sends may release changes queued at `q`,
+  -- which then come back
+  | ["crdt.patch.sync", p, q] =>
+    let (dq', _) := applyBatch (getReplica st q) (getReplica st p).applied
+    let (d', _) := applyBatch (getReplica st p) dq'.applied
+    (setReplica st p d', [s!"ok heads={showHashes d'.heads}"])
+  | ["crdt.patch.isolate", _p, hs] =>
+    match unhxList hs with
+    | some l => (st, [s!"ok heads={showHashes (sortHashes l)}"])
+    | none => (st, ["bad-input"])
+  | ["crdt.patch.integrate", p] => (st, [s!"ok heads={showHashes (getReplica st p).heads}"])
+  | ["crdt.patch.local", r, h] =>
+    match lookup st h with
+    | none => (st, ["bad-input"])
+    | some c =>
+      let d := getReplica st r
+      let d' : Doc := { d with applied := d.applied ++ [c] }
+      (setReplica st r d', [s!"ok heads={showHashes d'.heads}"])
   | _ => (st, ["unknown-cmd"])
 
 end Driver.CrdtPatch
